@@ -51,16 +51,17 @@ def ds_points(ds, model):
     if ds is None or not ds.data_vars:
         return out
     dims = [d for d in ("a", "b", "z") if d in ds.dims]
+    labels = {d: ds.coords[d].values.tolist() for d in dims}
     for var in ds.data_vars:
         arr = ds[var]
-        for combo in itertools.product(*[ds.coords[d].values.tolist() for d in dims]):
-            sel = dict(zip(dims, combo))
-            sub = arr
-            for d in dims:
-                if d in arr.dims:
-                    sub = sub.sel({d: sel[d]})
-            v = sub.values
-            v = v.item() if v.ndim == 0 else v
+        vals = arr.values
+        # by position, not by label: the labels of a wrong dataset may be anything
+        # (mixed types, duplicates) and must not make the oracle itself fail
+        for pos in itertools.product(*[range(len(labels[d])) for d in dims]):
+            at = dict(zip(dims, pos))
+            sel = {d: labels[d][i] for d, i in at.items()}
+            v = vals[tuple(at[d] if d in at else slice(None) for d in arr.dims)]
+            v = v.item() if getattr(v, "ndim", 1) == 0 else v
             try:
                 isnull = v is None or (isinstance(v, float) and np.isnan(v))
             except TypeError:
@@ -288,7 +289,9 @@ def run_c05(ctx):
                     return h.harvest_combos({"a": list(avals), "b": list(bvals)},
                                             sync=sync, overwrite=policy, verbosity=0)
                 if op == "harvest_cases":
-                    spelled = [{"a": a, "b": b} for a, b in pts] if t.flag(1, 2, "case-dicts") \
+                    # (dict cases: the key order of each dict is its own - a dict is a mapping)
+                    spelled = [({"b": b, "a": a} if t.flag(1, 3, "case-key-order") else {"a": a, "b": b})
+                               for a, b in pts] if t.flag(1, 2, "case-dicts") \
                         else [(a, b) for a, b in pts]
                     return h.harvest_cases(spelled, sync=sync, overwrite=policy, verbosity=0)
                 return h.add_ds(build_ds(), sync=sync, overwrite=policy)
